@@ -12,6 +12,7 @@ use echo_registry_api::{
 };
 use warp_core::causal_wal::FilesystemWalFaultPlan;
 use warp_core::{
+    ProvenanceStore,
     make_head_id, make_intent_kind, make_node_id, make_type_id, AuthoredObserverPlan,
     ContractMutationHandler, ContractPackageIdentity, ContractQueryObserver,
     ContractQueryObserverResult, EngineBuilder, GraphStore, GraphView, Hash, InboxPolicy,
@@ -410,6 +411,13 @@ fn h6(h: &Hash) -> String {
 /// Application-visible durable state of a host, as text.  Staging (in-memory admission) is
 /// deliberately excluded: `Pending` outcomes are printed without their ticketed-ingress id.
 pub fn fingerprint(host: &mut TrustedRuntimeHost, ids: &[(Sub, Hash)]) -> String {
+    let mut out = fingerprint_live(host, ids);
+    out.push_str(&fingerprint_wal(host, ids));
+    out
+}
+
+/// The in-memory, application-visible part of the fingerprint (no WAL read).
+pub fn fingerprint_live(host: &mut TrustedRuntimeHost, ids: &[(Sub, Hash)]) -> String {
     let mut out = String::new();
     let wl = worldline();
     out.push_str(&format!("global_tick={}\n", host.runtime().global_tick().as_u64()));
@@ -460,6 +468,12 @@ pub fn fingerprint(host: &mut TrustedRuntimeHost, ids: &[(Sub, Hash)]) -> String
             h6(id)
         ));
     }
+    out
+}
+
+/// What read-only recovery of the host's own WAL reports (committed count, index root, postures).
+pub fn fingerprint_wal(host: &mut TrustedRuntimeHost, ids: &[(Sub, Hash)]) -> String {
+    let mut out = String::new();
     match host.runtime_wal().map(|w| w.recover_read_only()) {
         Some(Ok(rec)) => {
             out.push_str(&format!(
